@@ -33,7 +33,7 @@ Notation predone := (pre_done K isinf f cb pones pdotL pdotR pvals pick pcoreG p
 Notation initm := (init K pones erank C).
 Notation geo := (Geo pones C).
 Notation ctl := (Ctl K isinf cb accdata C).
-Notation view := (step_view K isinf f cb pones pvals accdata C).
+Notation view := (step_view K isinf f cb pones pvals accuracy accdata C).
 Notation nsl := (ns C).
 Notation feval := (func_eval K f C).
 Notation dd := (d C).
@@ -307,5 +307,71 @@ Proof.
   destruct HB as (_ & _ & Hh & Hb). specialize (Hb mm Em). rewrite HF in Hh.
   nia.
 Qed.
+
+(* ------------------------------------------------------------ an e-only run whose reported e never qualifies *)
+(* only e is given (no budget, no nswp, no e_vld, no callback, no cache), the objective always answers, and the value
+   reported by accuracy never meets the criterion (e.g. the sentinel -1 of accuracy for 0/0, at every sweep): no
+   documented stop reason can fire, the loop never returns *)
+Section EOnly.
+Hypothesis Hm : m_max C = None.
+Hypothesis Hn : c_nswp C = None.
+Hypothesis Hv : c_evld C = None.
+Hypothesis Hcb : cb = None.
+Hypothesis Hca : c_cache C = None.
+Hypothesis Hf : forall k I, f k I <> None.
+Hypothesis Hacc : forall k Y Yo, hit K isinf (accuracy k Y Yo) (c_e C) = false.
+Hypothesis Hneg : hit K isinf (minus1 K) (c_e C) = false.
+
+Lemma iappr_quiet n e ev : hit K isinf e (c_e C) = false -> info_appr K isinf C None n e ev = None.
+Proof.
+  intros H. unfold info_appr. rewrite Hv. change (hit K isinf ev None) with false. cbv iota. rewrite H, Hn. reflexivity.
+Qed.
+
+Definition running (s : stt) : Prop := s_pc s <> Done /\ k_stop (sK s) = None.
+
+Lemma running_view s s' : Inv s -> view s s' -> running s -> running s'.
+Proof.
+  intros I V [Hr Hs]. destruct V as [Epc ->
+    | ltr i Epc Hne Hpc HK Hn' He Hev Hne'
+    | Epc Hpc HK Hev Hn' He Hne'
+    | ltr i c' oz Epc Ef Hor Hpc HK Hn' HYo
+    | ltr i c' Z Epc Hne Ef Est Hpc HK Hn' He Hev HYo
+    | c' Z s3 Epc Ef Est Hs3 HK Hn' Hpc Hex ].
+  - contradiction.
+  - destruct (nextpc_pre C ltr i Hne) as (l' & i' & E). split; [rewrite Hpc, E; discriminate|]. rewrite HK. exact Hs.
+  - split; [rewrite Hpc; discriminate|].
+    destruct (ctl_pre _ _ _ _ _ _ (inv_ctl _ I) false 0 Epc) as (_ & E0 & _).
+    rewrite HK, Hs, E0, (iappr_quiet _ _ _ Hneg). reflexivity.
+  - exfalso. destruct (funcm_fe K f pvals C _ _ _ _ _ _ Ef) as [-> Hz].
+    destruct (inv_nc _ I Hca) as (Hc & _).
+    set (B := batch (sn i) (nth i (sIr s) None) (nth (S i) (sIc s) None)) in *.
+    destruct (f (k_nf (sK s)) B) as [y|] eqn:Efy; [|exact (Hf _ _ Efy)].
+    destruct (fe_nocache_ok K f C (sK s) B y Hc Hm Efy) as (A1 & A2 & _).
+    destruct Hor as [N|E]; [apply N; rewrite A2; exact Hs|].
+    apply Hz in E. rewrite A1 in E. discriminate.
+  - destruct (nextpc_main C ltr i Hne) as (l' & i' & E & _). split; [rewrite Hpc, E; discriminate|]. rewrite HK. exact Est.
+  - destruct (funcm_fe K f pvals C _ _ _ _ _ _ Ef) as [Ec' Hz].
+    destruct (inv_nc _ I Hca) as (Hc & HF). apply acc_nc_hits in HF.
+    destruct (inv_base _ I) as (_ & _ & Hh & _). rewrite HF in Hh.
+    set (B := batch (sn 0) (nth 0 (sIr s) None) (nth 1 (sIc s) None)) in *.
+    destruct (f (k_nf (sK s)) B) as [y|] eqn:Efy; [|exfalso; exact (Hf _ _ Efy)].
+    destruct (fe_nocache_ok K f C (sK s) B y Hc Hm Efy) as (_ & _ & A3 & _). rewrite <- Ec' in A3.
+    destruct Hex as (ne & Y & Yo & Ee).
+    assert (E3 : s3 = None).
+    { rewrite Hs3. unfold post_stop, conv. rewrite A3, Hh, Est, Hcb.
+      replace (c_scale C * k_m c' <? 0) with false by (symmetry; apply Nat.ltb_ge; lia).
+      apply iappr_quiet. rewrite Ee. apply Hacc. }
+    rewrite E3 in Hpc, HK. split; [rewrite Hpc; discriminate|]. rewrite HK. reflexivity.
+Qed.
+
+Lemma running_steps k : running (iterate stepm k initm).
+Proof.
+  induction k as [|k IH]; [split; [discriminate|reflexivity]|]. rewrite iterate_S_r.
+  apply (running_view (iterate stepm k initm)); auto; [apply inv_steps|apply step_viewP].
+Qed.
+
+Lemma e_only_never_done fuel : s_pc (runm fuel) <> Done.
+Proof. rewrite run_steps. exact (proj1 (running_steps _)). Qed.
+End EOnly.
 
 End Run.
